@@ -32,10 +32,13 @@ const (
 	EReadFrom = NEntries
 	// EReadFromEOF is ReadFrom over a reader that returns its last data together with io.EOF.
 	EReadFromEOF = NEntries + 1
+	// EReadFromFrag is ReadFrom over a reader that hands its data over in short pieces (1..300 bytes) and now and then
+	// returns (0, nil): the payload becomes several low-level writes (single-writer trials only).
+	EReadFromFrag = NEntries + 2
 )
 
 // EntryName names the entry points.
-var EntryName = []string{"Write1", "Writev", "CtxWrite1", "CtxWritev", "Writer().Write", "ReadFrom", "ReadFrom(data+EOF)"}
+var EntryName = []string{"Write1", "Writev", "CtxWrite1", "CtxWritev", "Writer().Write", "ReadFrom", "ReadFrom(data+EOF)", "ReadFrom(short pieces)"}
 
 // WriteRec is one write call as seen at the client boundary.
 type WriteRec struct {
@@ -166,6 +169,8 @@ func DoWrite(ch netty.Channel, ctx context.Context, entry int, buf []byte, rng *
 		return ch.ReadFrom(bytes.NewReader(buf))
 	case EReadFromEOF:
 		return ch.ReadFrom(iotest.DataErrReader(bytes.NewReader(buf)))
+	case EReadFromFrag:
+		return ch.ReadFrom(&pieceReader{b: buf, rng: rng})
 	case EWritev, ECtxWritev:
 		parts := split(buf, rng)
 		if entry == EWritev {
@@ -174,6 +179,34 @@ func DoWrite(ch netty.Channel, ctx context.Context, entry int, buf []byte, rng *
 		return ch.CtxWritev(ctx, parts)
 	}
 	panic("bad entry")
+}
+
+// pieceReader delivers its data in short pieces and sometimes returns (0, nil) in between.
+type pieceReader struct {
+	b    []byte
+	rng  *rand.Rand
+	zero bool
+}
+
+func (r *pieceReader) Read(p []byte) (int, error) {
+	if len(r.b) == 0 {
+		return 0, io.EOF
+	}
+	if !r.zero && r.rng.Intn(6) == 0 {
+		r.zero = true
+		return 0, nil
+	}
+	r.zero = false
+	n := 1 + r.rng.Intn(300)
+	if n > len(r.b) {
+		n = len(r.b)
+	}
+	if n > len(p) {
+		n = len(p)
+	}
+	copy(p, r.b[:n])
+	r.b = r.b[n:]
+	return n, nil
 }
 
 func split(buf []byte, rng *rand.Rand) [][]byte {
